@@ -120,4 +120,60 @@ theorem rule_constant (E : Env) (k : OK ρ) (n : Nat) (v : Val) (tag : Nat) (s :
   skel_unfold Gen.PegSkel.RULE_CONSTANT
   skel_simp
 
+/-- RULE_GROUP: mode switched to NORMAL and restored before every return; the captures above the saved height become one
+    array capture -/
+theorem rule_group (E : Env) (k : OK ρ) (n : Nat) (r : ρ) (tag : Nat) (s : St) (pos : Nat) :
+    run E k (ops [(1, r)] [(2, tag)]) Gen.PegSkel.RULE_GROUP s pos = Op.step E k n (.group r tag) s pos := by
+  skel_unfold Gen.PegSkel.RULE_GROUP
+  simp only [ops, evalNE]
+  cases hd : down1 { s with acc := false } with
+  | error e => skel_simp
+  | ok s0 =>
+    skel_simp
+    cases hk : k r s0 pos with
+    | error e => skel_simp
+    | ok x =>
+      obtain ⟨res, s1⟩ := x
+      have htake : ∀ (l : List Val) (c : Nat), List.take (l.length - c) (List.drop c l) = List.drop c l :=
+        fun l c => List.take_of_length_le (by simp)
+      cases res <;> skel_simp
+
+theorem rule_nth (E : Env) (k : OK ρ) (n : Nat) (nth : Nat) (r : ρ) (tag : Nat) (s : St) (pos : Nat) :
+    run E k (ops [(2, r)] [(1, nth), (3, tag)]) Gen.PegSkel.RULE_NTH s pos = Op.step E k n (.nth nth r tag) s pos := by
+  skel_unfold Gen.PegSkel.RULE_NTH
+  simp only [ops, evalNE, evalWE]
+  cases hd : down1 { s with acc := false } with
+  | error e => skel_simp
+  | ok s0 =>
+    skel_simp
+    cases hk : k r s0 pos with
+    | error e => skel_simp
+    | ok x =>
+      obtain ⟨res, s1⟩ := x
+      cases res with
+      | none => skel_simp
+      | some p =>
+        skel_simp
+        generalize (if int32Max < nth then int32Max else nth) = m
+        by_cases h : m < (up1 s1).caps.length - (capSave s).cap
+        · have hlt : (capSave s).cap + m < (up1 s1).caps.length := by omega
+          simp [h, List.getElem?_eq_getElem hlt, upd]
+        · have hge : (up1 s1).caps.length ≤ (capSave s).cap + m := by omega
+          simp [h, List.getElem?_eq_none hge]
+
+theorem rule_error (E : Env) (k : OK ρ) (n : Nat) (r : ρ) (s : St) (pos : Nat) :
+    run E k (ops [(1, r)] []) Gen.PegSkel.RULE_ERROR s pos = Op.step E k n (.error r) s pos := by
+  skel_unfold Gen.PegSkel.RULE_ERROR
+  simp only [ops, evalNE]
+  cases hd : down1 { s with acc := false } with
+  | error e => skel_simp
+  | ok s0 =>
+    skel_simp
+    cases hk : k r s0 pos with
+    | error e => skel_simp
+    | ok x =>
+      obtain ⟨res, s1⟩ := x
+      cases res <;> skel_simp
+      split <;> rfl
+
 end JanetModel.Peg.TieSkel
